@@ -21,6 +21,26 @@ impl Oracle for C16 {
         if node >= w.views.len() {
             return;
         }
+        // an invitation that was merely received (or declined) must not get in the way of a group
+        // the user is active in: here, by reserving the Nostr group id that group rotates to
+        if let Op::Deliver { ev } = &rec.step.op {
+            if let Some(pe) = w.ev(*ev).cloned() {
+                if pe.kind == EvKind::Commit && is_refusal(&rec.class) {
+                    let new_id = pe.result_state.as_ref().and_then(|st| w.state_info.get(st)).map(|i| i.ext.split('|').next().unwrap_or("").to_string()).unwrap_or_default();
+                    let gk = w.gid_hex(pe.g);
+                    let was_active = w.prev_view.groups.get(&gk).and_then(|g| g.record.as_ref()).map(|r| r.state == "active").unwrap_or(false);
+                    let in_parent = rec.pre_state.get(&pe.g).map(|s| s.1 == pe.parent_state).unwrap_or(false);
+                    if !new_id.is_empty() && was_active && in_parent {
+                        let squatter = w.views[node].groups.iter().find(|(k, g)| **k != gk && g.record.as_ref().map(|r| r.state != "active" && r.nostr_group_id == new_id).unwrap_or(false)).map(|(k, g)| (k.clone(), g.record.as_ref().map(|r| r.state.clone()).unwrap_or_default()));
+                        if let Some((k, st)) = squatter {
+                            w.probe("commit_refused_while_an_invitation_holds_its_nostr_id");
+                            let known = if self.guarded { None } else { Some("KF-C16-1".to_string()) };
+                            w.violations.push(Violation { property: "C16".into(), clause: "invitation-blocks-an-active-group".into(), step: Some(rec.step.id), node: Some(node), detail: format!("n{node} g{}: the commit that rotates the group to Nostr id {} was refused ({}) while the {} record of invitation group {} holds that id", pe.g, &new_id[..8.min(new_id.len())], rec.outcome.chars().take(40).collect::<String>(), st, &k[..8]), known });
+                        }
+                    }
+                }
+            }
+        }
         let wref = match &rec.step.op {
             Op::ProcessWelcome { w } | Op::AcceptWelcome { w } | Op::DeclineWelcome { w } => *w,
             _ => return,
